@@ -6,7 +6,8 @@ structural functions (R2), the token loop of `full_cleaning` taking the TOKEN LI
 `suppress_main_guard` taking the parser's answer (line ranges of the top-level `if`s) as input. It mirrors
 /repo after the repairs e959b88 (F08), ff0b849 (F18), decc026 (F21), 2488bc4 (F19), 466f14f (F22+F23),
 55c4b14 (F33), 9ee7189 (F20), 4b0a4d7 (F36), 643e8d6 (F37),
-and the three repairs F42 (injection on the last line), F43 (guard recognised by its test), F44 (\\N{…} in f-strings). No finding of C13 is open.
+and the repairs F42 (injection on the last line), F43 (guard recognised by its test), F44 (\\N{…} in f-strings),
+F50 (an injection STATEMENT goes with all its lines: `suppress_sys_path_injection` takes the parser's statements as input).
 
 PROVED here, for every text and every token list (not only those CPython's tokenizer can produce):
   * no line of the result is empty or blank                                   (C13_no_blank_line)
@@ -24,6 +25,9 @@ PROVED here, for every text and every token list (not only those CPython's token
   * `suppress_main_guard` (parser as an oracle) removes exactly the lines of the guarded top-level
     `if` blocks and keeps every other line in order — repair 9ee7189          (C13_main_guard,
                                                                                an unparsable source is unchanged)
+  * `suppress_sys_path_injection` (parser as an oracle) removes exactly the lines of the column-0
+    top-level statements whose first line is an injection, all of them — repair F50 (C13_injection_statements,
+                                                                               C13_injection_marks, C13_injections)
   * a token on a later row inside an open logical line (backslash continuation) is kept apart from
     the previous one, column 0 included — repair 55c4b14                     (C13_rows_not_glued)
 
@@ -35,6 +39,7 @@ import Paroxy.Model.Cleanup
 import Paroxy.Spec.Cleanup
 import Paroxy.Proofs.Cleanup
 import Paroxy.Proofs.CleanupLoop
+import Paroxy.Proofs.CleanupInj
 namespace Paroxy.Props.C13
 open Paroxy.Cleanup Paroxy.Cleanup.Spec
 
@@ -313,6 +318,41 @@ theorem C13_injection_whole_statement (t : Text) (n : Nat) (hn : (splitNl t).len
   · simp only [injectionMarks, List.filter_cons, List.filter_nil, List.map_cons, List.map_nil, if_true,
       RangesOk, and_true]
     omega
+
+/-- **C13 (injection lines — the single-line case, the former `C13_injections`)**. When every injection
+statement is written on ONE line and every injection line of the text is the first line of a column-0
+statement (no injection-looking line inside a string or a continuation), the statement-level pass does
+what the former line-level theorem said: no line of the result is an injection, and the lines kept are
+the lines of the text that are not injections, in order (here without the "modulo empty lines" of the
+former statement: the last line goes like the others). -/
+theorem C13_injections (t : Text) (ss : List Stmt)
+    (hok : RangesOk 0 (splitNl t).length (injectionMarks (splitNl t) ss))
+    (hone : ∀ r ∈ injectionMarks (splitNl t) ss, r.isGuard = true → r.lineno = r.endLineno)
+    (hall : ∀ i, i < (splitNl t).length → isInjection ((splitNl t).getD i []) = true →
+      ∃ r ∈ injectionMarks (splitNl t) ss, r.lineno = i + 1) :
+    suppressSysPath (some ss) t = joinNl ((splitNl t).filter fun l => !isInjection l) ∧
+    (∀ l ∈ splitNl (suppressSysPath (some ss) t), isInjection l = false) ∧
+    (splitNl (suppressSysPath (some ss) t)).filter (fun l => !l.isEmpty) =
+      ((splitNl t).filter fun l => !isInjection l).filter (fun l => !l.isEmpty) := by
+  have hk := keepOutside_single_line (injectionMarks (splitNl t) ss) 0 (splitNl t) hok hone
+    (fun r hr => by
+      simp only [injectionMarks, List.mem_map, List.mem_filter] at hr
+      obtain ⟨s, _, rfl⟩ := hr
+      rfl)
+    (fun i hi h => by simpa using hall i hi h)
+  have heq : suppressSysPath (some ss) t = joinNl ((splitNl t).filter fun l => !isInjection l) := by
+    rw [C13_injection_statements t ss hok, hk]
+  refine ⟨heq, ?_⟩
+  rw [heq]
+  by_cases hnil : ((splitNl t).filter fun l => !isInjection l) = []
+  · rw [hnil]
+    simp [joinNl, splitNl, isInjection_nil]
+  · rw [splitNl_joinNl _ hnil (fun l hl => splitNl_no_nl t l (List.mem_filter.mp hl).1)]
+    exact ⟨fun l hl => by simpa using (List.mem_filter.mp hl).2, rfl⟩
+
+/-- the former example: hypotheses hold, the last line goes -/
+example : suppressSysPath (some [⟨1, 1, true⟩, ⟨2, 2, true⟩]) "x = 1\n__import__(\"sys\").path[0:0] = [\"a\"]".toList =
+    joinNl ((splitNl "x = 1\n__import__(\"sys\").path[0:0] = [\"a\"]".toList).filter fun l => !isInjection l) := by decide
 
 /-- the three inputs of finding F50 (the parser's answer is what `ast.parse` reports) -/
 example : suppressSysPath (some [⟨1, 4, true⟩, ⟨6, 6, true⟩])
